@@ -203,3 +203,33 @@ pub(crate) fn set_stamp(q: &mut ActiveQuery, d: Durability, r: Revision) {
     q.durability = d;
     q.changed_at = r;
 }
+
+//@ob id=K-AQ-7 kind=C props=C14,C22,C01 timeout=900 fn=ActiveQuery::clear,ActiveQuery::reset_for
+//@ pre: a stack frame that was used by an execution which is being abandoned (popped while unwinding): it has read a provisional fixpoint value (one cycle head), recorded an input edge, created a tracked-struct identity and lowered its stamp
+//@ post: after `clear` + `reset_for(next query)` the frame carries **nothing** of the abandoned execution: no edges, no cycle heads, no identities, no disambiguators, stamp (MAX durability, R1), tracked - so the next query that reuses the frame (any query, also an unrelated one) starts clean
+#[cfg_attr(kani, kani::proof)]
+#[cfg_attr(kani, kani::unwind(5))]
+#[cfg_attr(salsa_verif_replay, test)]
+fn k_aq_7_abandoned_frame_is_clean() {
+    let mut q = ActiveQuery::new(vk::key(0, 9));
+    let head = vk::key(2, 4);
+    let stamp = crate::cycle::IterationStamp::initial(vk::any());
+    q.add_read_simple(vk::key(1, 3), vk::any_writable_durability(), vk::any_revision());
+    q.cycle_heads = crate::cycle::CycleHeads::initial(head, stamp);
+    q.tracked_struct_ids.insert(crate::tracked_struct::verif::identity(9, 77, 0), vk::any_id());
+    if vk::any() {
+        q.add_untracked_read(vk::any_revision());
+    }
+    assert!(!q.cycle_heads.is_empty() && !q.input_outputs.is_empty());
+    q.clear();
+    let next = vk::key(5, 6);
+    q.reset_for(next);
+    assert!(q.database_key_index == next);
+    assert!(q.input_outputs.is_empty());
+    assert!(q.cycle_heads.is_empty());
+    assert!(q.tracked_struct_ids.verif_is_empty());
+    assert!(q.disambiguator_map.verif_is_empty());
+    assert!(q.durability == Durability::MAX && q.changed_at == Revision::start() && !q.untracked_read);
+    vcover!();
+    std::mem::forget(q);
+}
